@@ -278,6 +278,21 @@ impl KotoVm {
         &self.context.settings.stderr
     }
 
+    /// Verification hook: sizes of the VM's internal stacks
+    ///
+    /// Returns `[registers, call_stack, sequence_builders, string_builders, register_base]`.
+    /// Read-only, only compiled with `--cfg koto_verif`.
+    #[cfg(koto_verif)]
+    pub fn verif_stack_sizes(&self) -> [usize; 5] {
+        [
+            self.registers.len(),
+            self.call_stack.len(),
+            self.sequence_builders.len(),
+            self.string_builders.len(),
+            self.register_base,
+        ]
+    }
+
     /// Runs the provided [Chunk], returning the resulting [KValue]
     pub fn run(&mut self, chunk: Ptr<Chunk>) -> Result<KValue> {
         // Set up an execution frame to run the chunk in
